@@ -7,6 +7,9 @@
 import Hpfeeds.Lemmas.AioClient
 import Hpfeeds.Lemmas.BlkSession
 import Hpfeeds.Lemmas.BlkClient
+import Hpfeeds.Lemmas.AioWrites
+import Hpfeeds.Lemmas.BlkSessionWrites
+import Hpfeeds.Lemmas.BlkClientWrites
 namespace Hpfeeds.C11
 open Hpfeeds Extracted
 
@@ -53,6 +56,17 @@ theorem wanted_set (cfg : Cfg) (es : List Ev) :
     (∀ ch, ch ∈ sortBytes (run cfg es).1.subs ↔ ch ∈ (run cfg es).1.subs) ∧
     (sortBytes (run cfg es).1.subs).length = (run cfg es).1.subs.length :=
   ⟨subs_eq_wantedOf cfg es, subs_nodup cfg es, mem_sortBytes _, length_sortBytes _⟩
+
+/-- ON EVERY CONNECTION THEY MAKE, first or re-connection — the observable form, over the whole history.  For
+    ANY event sequence and EVERY connection number `k`, the frames the model's OUTPUT shows written on
+    connection `k` — which is what the correspondence check compares with the bytes the real transport `k`
+    received — are: nothing, or OP_AUTH(a nonce) followed by one OP_SUBSCRIBE per channel of a set, followed by
+    later application frames.  (asyncio session and Twisted service: any `cfg`.) -/
+theorem every_connection_observable (cfg : Cfg) (es : List Ev) (k : Nat) :
+    wroteOn k (run cfg es).2 = [] ∨
+    ∃ (rand : Bytes) (wanted later : List Bytes),
+      wroteOn k (run cfg es).2 = authFrame cfg rand :: wanted.map (subFrame cfg) ++ later :=
+  every_connection cfg es k
 
 /-! non-vacuity (kernel-evaluated, hash := id): subscribe while disconnected, refused attempt, accepted
     attempt, OP_INFO cut in two chunks: AUTH for that nonce then SUBSCRIBE, nothing before -/
@@ -104,6 +118,12 @@ theorem ready_means_auth_queued (cfg : Cfg) (es : List Ev) (h : (run cfg es).1.r
   obtain ⟨rest, hrest⟩ := (run_inv cfg es).a.first r hr
   exact ⟨r, rest, hr, hrest, hl⟩
 
+/-- the observable form over the whole history: for EVERY connection number `k`, the bytes the OUTPUT shows
+    accepted by the socket of connection `k` are nothing, or a prefix of a stream that begins with OP_AUTH -/
+theorem every_connection_observable (cfg : Cfg) (es : List Ev) (k : Nat) :
+    bytesOn k (run cfg es).2 = [] ∨ ∃ (r : Bytes) (tail : Bytes), bytesOn k (run cfg es).2 <+: authFrame cfg r ++ tail :=
+  every_connection cfg es k
+
 /-! non-vacuity (kernel-evaluated, hash := id).  A subscribe made before OP_INFO — thread 1 has picked the
     outbox and tests when_connected before the handshake — is not queued; the one that tests it afterwards
     is, behind OP_AUTH and the resubscription.  Thread 3 picked the outbox of connection 1, the connection
@@ -137,6 +157,12 @@ theorem first_frame_is_auth (cfg : Cfg) (es : List Ev) (r : Bytes) (h : (run cfg
 theorem setup_is_silent (cfg : Cfg) (es : List Ev) (h : ConnPc (run cfg es).1.pc) :
     (run cfg es).1.nonce = none ∧ (run cfg es).1.sent = [] :=
   ⟨(kinv_run cfg es).pre h, (kinv_run cfg es).quiet ((kinv_run cfg es).pre h)⟩
+
+/-- the observable form over the whole history: for EVERY socket number `k`, the frames the OUTPUT shows sent
+    on socket `k` are nothing, or begin with the OP_AUTH of a nonce -/
+theorem every_connection_observable (cfg : Cfg) (es : List Ev) (k : Nat) :
+    wroteOn k (run cfg es).2 = [] ∨ ∃ (r : Bytes) (rest : List Bytes), wroteOn k (run cfg es).2 = authFrame cfg r :: rest :=
+  every_connection cfg es k
 
 /-- the nonce answered is the one of the OP_INFO that is the FIRST frame received on that socket: do_auth,
     in any state, given a chunk that starts (unpacker empty, as after connect()) with a well-formed frame -/
